@@ -274,28 +274,57 @@ func rootIdent(e ast.Expr) *ast.Ident {
 }
 
 // pathOf returns the access path of an expression rooted at an identifier: the root name
-// followed by the field selectors ("gen", "gen.count"); indexing, slicing, dereferencing and
-// parentheses do not extend the path. ok is false for anything else (calls, literals).
+// followed by the field selectors, with "[]" for every indexing step ("gen", "gen.count",
+// "shards[].drawn"); slicing, dereferencing and parentheses do not extend the path. ok is
+// false for anything else (calls, literals).
 func pathOf(e ast.Expr) (path string, root *ast.Ident, ok bool) {
+	path, root, _, ok = pathIdx(e)
+	return
+}
+
+// pathIdx is pathOf that also returns the index expressions along the path, outermost last.
+func pathIdx(e ast.Expr) (path string, root *ast.Ident, idx []ast.Expr, ok bool) {
 	switch x := e.(type) {
 	case *ast.Ident:
-		return x.Name, x, true
+		return x.Name, x, nil, true
 	case *ast.SelectorExpr:
-		p, r, ok := pathOf(x.X)
+		p, r, i, ok := pathIdx(x.X)
 		if !ok {
-			return "", nil, false
+			return "", nil, nil, false
 		}
-		return p + "." + x.Sel.Name, r, true
+		return p + "." + x.Sel.Name, r, i, true
 	case *ast.IndexExpr:
-		return pathOf(x.X)
+		p, r, i, ok := pathIdx(x.X)
+		if !ok {
+			return "", nil, nil, false
+		}
+		return p + "[]", r, append(i, x.Index), true
 	case *ast.StarExpr:
-		return pathOf(x.X)
+		return pathIdx(x.X)
 	case *ast.ParenExpr:
-		return pathOf(x.X)
+		return pathIdx(x.X)
 	case *ast.SliceExpr:
-		return pathOf(x.X)
+		return pathIdx(x.X)
 	}
-	return "", nil, false
+	return "", nil, nil, false
+}
+
+// pure reports whether evaluating e twice is harmless (no calls, receives, or literals with
+// function bodies): the index expressions of a hooked access are evaluated once more in the hook.
+func pure(e ast.Expr) bool {
+	ok := true
+	ast.Inspect(e, func(n ast.Node) bool {
+		switch x := n.(type) {
+		case *ast.CallExpr, *ast.FuncLit:
+			ok = false
+		case *ast.UnaryExpr:
+			if x.Op == token.ARROW {
+				ok = false
+			}
+		}
+		return ok
+	})
+	return ok
 }
 
 var lockMethods = map[string]bool{"Lock": true, "Unlock": true, "RLock": true, "RUnlock": true, "TryLock": true, "TryRLock": true, "RLocker": true}
@@ -753,8 +782,8 @@ func (p *pkgCtx) classify() {
 type accs struct {
 	p      *pkgCtx
 	fc     *fileCtx
-	reads  map[int]bool
-	writes map[int]bool
+	reads  map[string]bool // "id" or "id, index, index" (the hook's argument list)
+	writes map[string]bool
 }
 
 // note records an access to the path of e, if it is rooted at a package-level variable and
@@ -765,10 +794,19 @@ func (a *accs) note(e ast.Expr, write bool) bool {
 		return false
 	}
 	if vid, ok := a.p.instr[path]; ok {
+		_, _, idx, _ := pathIdx(e)
+		args := strconv.Itoa(vid)
+		for _, ix := range idx {
+			if !pure(ix) {
+				// cannot evaluate the index twice: this access goes unobserved
+				return true
+			}
+			args += ", " + a.fc.text(ix)
+		}
 		if write {
-			a.writes[vid] = true
+			a.writes[args] = true
 		} else {
-			a.reads[vid] = true
+			a.reads[args] = true
 		}
 	}
 	return true
@@ -1294,9 +1332,9 @@ func (p *pkgCtx) hookBlock(fc *fileCtx, b *ast.BlockStmt) {
 
 func (p *pkgCtx) hookList(fc *fileCtx, list []ast.Stmt) {
 	for _, s := range list {
-		a := &accs{p: p, fc: fc, reads: map[int]bool{}, writes: map[int]bool{}}
+		a := &accs{p: p, fc: fc, reads: map[string]bool{}, writes: map[string]bool{}}
 		a.shallow(s)
-		var ids []int
+		var ids []string
 		for id := range a.writes {
 			ids = append(ids, id)
 		}
@@ -1305,14 +1343,17 @@ func (p *pkgCtx) hookList(fc *fileCtx, list []ast.Stmt) {
 				ids = append(ids, id)
 			}
 		}
-		sort.Ints(ids)
+		sort.Strings(ids)
 		txt := ""
 		for _, id := range ids {
+			fn := "R"
 			if a.writes[id] {
-				txt += fmt.Sprintf("vrace.W(%d); ", id)
-			} else {
-				txt += fmt.Sprintf("vrace.R(%d); ", id)
+				fn = "W"
 			}
+			if strings.Contains(id, ",") {
+				fn += "K" // keyed by the index values: every element is a variable of its own
+			}
+			txt += fmt.Sprintf("vrace.%s(%s); ", fn, id)
 		}
 		if txt != "" {
 			fc.need["vrace"] = true
@@ -1381,7 +1422,12 @@ func (p *pkgCtx) writeReset(root string) {
 	if len(names) > 0 {
 		body += "import (\n\t\"unsafe\"\n\n\tvrace \"" + base + "vrace\"\n)\n\n"
 		for _, n := range names {
-			reg += fmt.Sprintf("\tvrace.Register(%d, uintptr(unsafe.Pointer(&%s)))\n", p.instr[n], n)
+			if !strings.Contains(n, "[]") {
+				reg += fmt.Sprintf("\tvrace.Register(%d, uintptr(unsafe.Pointer(&%s)))\n", p.instr[n], n)
+			}
+		}
+		if reg == "" {
+			reg = "\t_ = unsafe.Pointer(nil)\n\t_ = vrace.Enabled\n"
 		}
 		reg = "\tdefer func() { recover() }() // a path through a nil pointer has no address yet\n" + reg
 	}
